@@ -580,12 +580,27 @@ func collapse(lines []string) []string {
 
 // collapseTokens collapses tandem repeats inside one statement string.
 func collapseTokens(s string) string {
+	// brackets and commas are tokens of their own, so that repeated arguments collapse like repeated statements:
+	// append(xs, f(), f()) has the skeleton of append(xs, f())
+	var b strings.Builder
+	for _, r := range s {
+		switch r {
+		case '(', ')', '{', '}':
+			b.WriteRune(' ')
+			b.WriteRune(r)
+			b.WriteRune(' ')
+		case ',':
+			b.WriteRune(' ')
+		default:
+			b.WriteRune(r)
+		}
+	}
 	var toks []string
-	for _, t := range strings.Fields(s) {
+	for _, t := range strings.Fields(b.String()) {
 		if t == "&&" || t == "||" {
 			continue // conjunctions/disjunctions over all parameters: x != nil && x != nil, x == nil || x == nil
 		}
-		toks = append(toks, strings.TrimRight(t, ","))
+		toks = append(toks, t)
 	}
 	return strings.Join(collapse(toks), " ")
 }
@@ -673,7 +688,7 @@ func c14r3(c *core.Ctx) {
 			j := 0
 			missing := ""
 			for _, line := range z {
-				if strings.Contains(line, "hasRareComp") || strings.Contains(line, "allArchetypes") || strings.Contains(line, "var archetypes") || strings.TrimSpace(line) == "else" || strings.Contains(line, "archetypes = ") || strings.Contains(line, "[]ID{}") {
+				if strings.Contains(line, "hasRareComp") || strings.Contains(line, "allArchetypes") || strings.Contains(line, "var archetypes") || strings.TrimSpace(line) == "else" || strings.Contains(line, "archetypes = ") || strings.Contains(strings.ReplaceAll(line, " ", ""), "[]ID{}") {
 					continue // frozen: arity-0 specific choice of the archetype list / empty id list
 				}
 				found := false
